@@ -9,6 +9,7 @@ def register(R):
     register_c11(R)
     register_c11b(R)
     register_c18b(R)
+    register_deliver_lemmas(R)
     # a downstream StreamResult: every call is one event in its ghost history; it does not raise
     R.shape("Stream",
             startTestRun=dict(event=True, returns="any"),
@@ -165,3 +166,20 @@ def register_c18b(R):
     R.lemma("route_push_pop_some", ["C18"], vars={"code": "str", "rc": "str"}, background=False,
             assumes=["not member('/', code)", "len(rc) > 0"],
             goal="first_segment(code + '/' + rc, '/') == code and (code + '/' + rc)[len(code) + 1:] == rc")
+
+
+def register_deliver_lemmas(R):
+    # disjoint_from(s, r): no element of s is the object r (definition), and every element is an object
+    R.function("disjoint_from", ["seq", "val"], "bool")
+    R.axiom("disjoint_from_def", {"s": "seq", "r": "val"},
+            "disjoint_from(s, r) == (is_ref(r) and forall(lambda j: implies(0 <= j and j < len(s), s[j] != r and is_ref(s[j]))))")
+    # deliver touches only its targets: proved by induction over the prefix length (base + step), then usable as a fact
+    VARS = {"H": "harr", "s": "seq", "e": "event", "k": "int", "r": "val"}
+    R.lemma("deliver_frame_base", ["C09", "C11", "C18", "C08"], vars=VARS, assumes=["k == 0"], goal="hsel(deliver(H, s, e, k), r) == hsel(H, r)")
+    R.lemma("deliver_frame_step", ["C09", "C11", "C18", "C08"], vars=VARS,
+            assumes=["0 <= k", "k < len(s)", "disjoint_from(s, r)",
+                     # induction hypothesis for k
+                     "hsel(deliver(H, s, e, k), r) == hsel(H, r)"],
+            goal="hsel(deliver(H, s, e, k + 1), r) == hsel(H, r)")
+    R.axiom("deliver_frame", VARS,
+            "implies(0 <= k and k <= len(s) and disjoint_from(s, r), hsel(deliver(H, s, e, k), r) == hsel(H, r))")
